@@ -21,7 +21,10 @@ the failing one written, the failing one not at all) and the later operations ru
 (`impl_c10.ref_apply`): the property text read entry by entry on deep copies with the real formatter as primitive - each
 incoming key and value formatted once, as a whole, against the context as merged so far, BEFORE its entry writes; a default
 for a path that exists evaluates nothing - outcome (returns / error class) and context (after success AND after a failure)
-must be the reference's; `atomic_monitor`: a list path is never left half-extended. Side-effecting !py ({"pysrc":
+must be the reference's; `atomic_monitor`: a list path is never left half-extended. `keys_monitor`: "both apply formatting
+to incoming keys" read off the incoming mapping alone for keys of every hashable kind - the formatted key is a key at its
+level afterwards and the raw one is not (root, existing mappings, below new paths); `frame-added`: a key that appears
+although no incoming key formats to it. Side-effecting !py ({"pysrc":
 "free_ports.pop()"}: no model side) is judged by the reference monitor alone.
 """
 from .. import common
@@ -206,6 +209,13 @@ def run(env, res):
                 'expression, needed side-effecting defaults evaluated exactly once; random: 12-30 % of incoming lists get a '
                 'later self-referring or failing member, 30 % of defaults on existing paths are unformattable, every op of '
                 'a random sequence is marked swallow with p = 0.5; '
+                'keys:kinds family: an incoming key of every hashable kind (str expression formatting to str / int / None / a '
+                'tuple; int, bool, None, float, bytes; tuple plain / with expression members / nested; frozenset plain / with an '
+                'expression member / inside a tuple) at the root, under existing mappings at depth 1-3 and below a new path of '
+                'depth 1-2 x formatted key absent / an existing list / an existing None x merge / set_defaults / the two steps '
+                '(frozenset keys: implementation-only, judged by the monitors - key-not-formatted, frame-added, table, defaults, '
+                'reference); random: 15 % of nested keys and some root keys are non-str (tuples, nested tuples, float, bytes, '
+                'frozensets), container keys get expression members whose value is the member; '
                 'non-trivial = distinct case that reached both sides; every '
                 'case also through the heap-level model; alias streams: monitors only (known findings)')
     for case, sig in I.alias_cases():
@@ -213,7 +223,7 @@ def run(env, res):
     directed = I.directed_cases()
     for i in range(0, len(directed), 500):
         check_cases(env, res, directed[i:i + 500])
-    n = env.n(2800, 40000)
+    n = env.n(2300, 40000)
     batch = []
     for _ in range(n):
         batch.append(I.random_case(env.rng))
